@@ -204,6 +204,7 @@ def run(ctx) -> None:
     r3_parse_actions(ctx, m)
     r4_selector(ctx, m, pat_alpha)
     r5_cache(ctx)
+    r6_filter_condition_rewrite(ctx)
 
 
 def r3_parse_actions(ctx, m) -> None:
@@ -462,3 +463,105 @@ def r5_cache(ctx) -> None:
             f.rule = "C02.R5"
     ctx.r.rule_counts["C02.R5"] = ctx.r.rule_counts.pop("C15.R2", 0)
     ctx.r.rule_text.pop("C15.R2", None)
+
+
+# ---------------------------------------------------------------------------------------------------------------------
+FILTER_SAMPLES = [  # filter condition -> the same condition over the renamed detections (P = the drawn prefix)
+    ("not ex", "not P_ex"),
+    ("not all", "not P_all"),
+    ("not any and not of", "not P_any and not P_of"),
+    ("not them", "not P_them"),
+    ("not 1", "not P_1"),
+    ("all of ex*", "all of P_ex*"),
+    ("1 of them", "1 of P_*"),
+    ("not (1 of all*)", "not (1 of P_all*)"),
+    ("any of them and not all", "any of P_* and not P_all"),
+    ("not (ex or all of of*)", "not (P_ex or all of P_of*)"),
+    ("1 of *_allow", "1 of P_*_allow"),
+    ("not (  flt )", "not (  P_flt )"),
+    ("not ex-1 or not_x", "not P_ex-1 or P_not_x"),
+    ("1 of 1", "1 of P_1"),
+]
+
+
+def r6_filter_condition_rewrite(ctx) -> None:
+    """A filter's condition is spliced into the rule's condition as text: its detections are renamed with a drawn prefix
+    and the condition text is rewritten token by token. The rewriting must classify the words like the grammar does:
+    not/and/or are operators, 1|any|all are quantifiers only in front of `of`, `of` only behind a quantifier, `them` only
+    as the pattern of a selector — everything else is a detection name (whole word) and gets the prefix."""
+    from ..tabulate import Interp, Raised
+    import re as _re
+    r, prog = ctx.r, ctx.prog
+    r.rule("C02.R6", "filter condition rewriting reads words like the condition grammar: SigmaFilter.apply_on_rule, interpreted on sample conditions (sa.tabulate; stand-ins for rule, filter and the random module), renames every detection name — also one called all/any/of/them/1 — and leaves operators and selector keywords alone")
+    f = prog.func("sigma.filters.SigmaFilter.apply_on_rule")
+    cls = prog.cls("sigma.filters.SigmaFilter")
+    consts = {}
+    for name, sts in cls.assigns.items():
+        for st in sts:
+            v = getattr(st, "value", None)
+            if v is not None and name.startswith("_CONDITION"):
+                try:
+                    consts[name] = const_eval(prog, f.module, v)
+                except Exception:
+                    pass
+
+    class _Corr:
+        pass
+
+    class _Det:
+        def __init__(self):
+            self.detections = {"sel": "D(sel)"}
+            self.condition = ["sel"]
+
+        def __post_init__(self):
+            return None
+
+    class _Rule:
+        def __init__(self):
+            self.detection = _Det()
+
+    class _Rand:
+        @staticmethod
+        def choices(pop, k=1, **kw):
+            return ["x"] * k
+
+        @staticmethod
+        def choice(pop):
+            return "x"
+
+    bad = []
+    for cond, want in FILTER_SAMPLES:
+        names = sorted(set(_re.findall(r"[A-Za-z0-9_*-]+", cond)) - {"not", "and", "or"})
+        filt = type("F", (), {})()
+        filt.detections = {n: f"D({n})" for n in names if "*" not in n}
+        filt.condition = [cond]
+        me = type("S", (), {})()
+        me.filter = filt
+        me._should_apply_on_rule = lambda rule: True
+        for k, v in consts.items():
+            setattr(me, k, v)
+        rule = _Rule()
+        env = {"self": me, "rule": rule, "SigmaCorrelationRule": _Corr, "random": _Rand, "re": _re,
+               "string": type("string", (), {"ascii_lowercase": "abcdefghijklmnopqrstuvwxyz"}),
+               "copy": type("copy", (), {"deepcopy": staticmethod(lambda x: x), "copy": staticmethod(lambda x: x)})}
+        it = Interp(env, max_steps=20000)
+        try:
+            it.call(f.node.body)
+        except Raised as ex:
+            bad.append((cond, f"raises {ex}"))
+            continue
+        got = rule.detection.condition[0]
+        prefixes = {k[:-len("_" + n)] for k in rule.detection.detections for n in filt.detections if k.endswith("_" + n) and k != n}
+        if len(prefixes) != 1:
+            bad.append((cond, f"detections renamed inconsistently: {sorted(rule.detection.detections)}"))
+            continue
+        P = prefixes.pop()
+        exp = "(sel) and (" + want.replace("P_", P + "_") + ")"
+        if got != exp:
+            bad.append((cond, f"is rewritten to {got!r}, the grammar reads it as {exp!r}"))
+    if bad:
+        cond, why = bad[0]
+        r.violation("C02.R6", f.qual, f"filter condition {cond!r}", f"{why} (+{len(bad) - 1} more sample(s)): a detection name is a whole word wherever the grammar expects an operand; a keyword left unprefixed refers to a detection that was renamed (error) or to a detection of the rule itself (silently another function)", f.loc)
+    else:
+        r.ok("C02.R6", f.qual, f"apply_on_rule interpreted on {len(FILTER_SAMPLES)} filter conditions: operators and selector keywords kept, every detection name prefixed", f.loc)
+    r.floor("C02.R6", 1)
